@@ -238,7 +238,7 @@ func run(c *core.Ctx) {
 	// of edits within a window
 	if !c.Expired() {
 		window := c.Pick(1, 3)
-		alpha2 := langx.ReducedEditAlphabet
+		alpha2 := langx.ReducedEditAlphabet[:4]
 		if !c.Quick() {
 			alpha2 = langx.EditAlphabet
 		}
